@@ -6,10 +6,14 @@ C14 driver: one dumped function per line.
 
 (csv = comma separated block indices, `-` = empty / nil.)  Output:
 
-  <verdict> num=<ok|diff> lt=<ok|diff|panic> [details]
+  <verdict> num=<ok|diff> lt=<ok|diff|panic> preds=<ok|diff> [details]
 
-verdict = `ok` when the proved validator `domCheck` accepts, otherwise
-`fail:<first failing clause>`; `num` / `lt` are the correspondence of the
+`chkf …` has the same arguments as `chk` but runs only the any-size validator.
+
+verdict = `ok` when the proved validators accept (`domCheckF` always; `domCheck`, the
+O(n³) comparison with the path-based reference, only for `chk`), otherwise
+`fail:<first failing clause>` (clauses of `domCheckF` are prefixed `f-`); `preds` probes
+that the dumped `Preds` are the inverse of `Succs`; `num` / `lt` are the correspondence of the
 `numberDomTree` / `buildDomTree` transliterations with what was reported.  Details (only
 on failure, produced by unverified reporting code) name a block pair and both answers.
 
@@ -17,6 +21,7 @@ on failure, produced by unverified reporting code) name a block pair and both an
 -/
 import Verif.Common.Proto
 import Verif.C14.Model
+import Verif.C14.Fast
 namespace Verif.C14
 open Verif.Proto
 
@@ -137,33 +142,86 @@ def details (G : Graph) (r : Report) (clause : String) : String :=
     | none => ""
   else ""
 
-def check (c : Case) : String :=
-  let r := c.rep
-  let cl := clauses c.G r
-  let v := domCheck c.G r
-  let firstBad := (cl.find? (fun p => !p.2)).map (·.1)
-  let verdict :=
-    if v then "ok" else
-    match firstBad with
-    | some name => s!"fail:{name}"
-    | none => "fail:?"
-  -- the clause list and the validator must agree (they are the same conjunction)
-  let verdict := if v && firstBad.isSome then "fail:clauses-disagree" else verdict
-  let num := if numberCheck r then "ok" else "diff"
-  let preds := fun v => c.preds.getD v []
-  let lt := match ltBuild c.G preds r.recover with
-    | none => "panic"
-    | some (idom, children) => if idom == r.idom && children == r.dominees then "ok" else "diff"
-  let det := match firstBad with
-    | some name => if v then "" else " " ++ details c.G r name
+/-- Unverified reporting for the clauses of the any-size validator. -/
+def detailsF (G : Graph) (r : Report) (clause : String) : String :=
+  let n := r.n
+  match domBits G r.roots with
+  | none => "the iterative dominator algorithm did not stabilise within its fuel"
+  | some D =>
+  if clause = "f-rows-exact" then
+    match r.rows.findSome? (fun (a, bits) =>
+      if bits.length != n then some s!"a={a} row-length reported={bits.length} reference={n}" else
+      ((List.range n).find? fun b => bits.getD b false != (dget D b).testBit a).map fun b =>
+        s!"a={a} b={b} reported={showBool (bits.getD b false)} reference={showBool ((dget D b).testBit a)}") with
+    | some s => s
     | none => ""
-  s!"{verdict} num={num} lt={lt}{det}"
+  else if clause = "f-idom" then
+    match (List.range n).find? (fun v =>
+      !(match r.idomOf v with
+        | none => dget D v == bit v
+        | some d => decide (d < n) && d != v && dget D v == (bit v ||| dget D d))) with
+    | some v =>
+      let doms := (List.range n).filter (fun a => (dget D v).testBit a && a != v)
+      s!"b={v} idom={r.idomOf v} strict-dominators(reference)={doms}"
+    | none => ""
+  else if clause = "f-dominees" then
+    match (List.range n).find? (fun a =>
+      let want := (List.range n).filter (fun b => r.idomOf b == some a)
+      !(want.all (r.domineesOf a).contains && (r.domineesOf a).length == want.length)) with
+    | some a => s!"a={a} dominees={r.domineesOf a} blocks-with-idom-a={(List.range n).filter (fun b => r.idomOf b == some a)}"
+    | none => ""
+  else if clause = "f-forest" then
+    match forestF r with
+    | none => "the reported Dominees lists do not unfold to a forest (cycle)"
+    | some ts =>
+      if !forestGood D ts then "a tree edge of the reported Dominees is not an immediate-dominance edge"
+      else if preF ts != r.preL then s!"DomPreorder={r.preL} is not the preorder traversal {preF ts} of the dominator forest"
+      else if postF ts != r.postL then s!"DomPostorder={r.postL} is not the postorder traversal {postF ts} of the dominator forest (children in DomPreorder order)"
+      else "DomPreorder is not a permutation of the blocks"
+  else ""
+
+/-- `ref = true`: also run the O(n³) validator `domCheck` against the path-based reference. -/
+def check (c : Case) (ref : Bool) : String :=
+  let r := c.rep
+  let G := c.G
+  let clF := clausesF G r
+  let vF := domCheckF G r
+  let badF := (clF.find? (fun p => !p.2)).map (·.1)
+  let cl := if ref then clauses G r else []
+  let v := if ref then domCheck G r else true
+  let bad := (cl.find? (fun p => !p.2)).map (·.1)
+  let verdict :=
+    if vF && v then
+      (if badF.isSome || bad.isSome then "fail:clauses-disagree" else "ok")
+    else if !vF then
+      match badF with
+      | some name => s!"fail:{name}"
+      | none => "fail:?"
+    else
+      match bad with
+      | some name => s!"fail:{name}"
+      | none => "fail:?"
+  let num := if numberCheckT r then "ok" else "diff"
+  let preds := fun v => c.preds.getD v []
+  let lt := match ltBuild G preds r.recover with
+    | none => "panic"
+    | some _ => if ltCheckT G preds r then "ok" else "diff"
+  let pc := if predsConsistent G c.preds then "ok" else "diff"
+  let det :=
+    if !vF then (match badF with | some name => " " ++ detailsF G r name | none => "")
+    else if !v then (match bad with | some name => " " ++ details G r name | none => "")
+    else ""
+  s!"{verdict} num={num} lt={lt} preds={pc}{det}"
 
 def step (line : String) : String :=
   match tokens line with
   | "chk" :: ts =>
     match parseCase ts with
-    | some c => check c
+    | some c => check c true
+    | none => "bad-op"
+  | "chkf" :: ts =>
+    match parseCase ts with
+    | some c => check c false
     | none => "bad-op"
   | ["ref", n, rec, "S"] => if n = "0" ∧ rec = "-" then "" else "bad-op"
   | "ref" :: n :: rec :: "S" :: ts =>
